@@ -26,10 +26,15 @@ type fileCase struct {
 	V6      bool     `json:"v6"`
 	Content string   `json:"content,omitempty"` // static
 	Seed    int64    `json:"seed"`
-	Macs    int      `json:"macs,omitempty"`    // refresh/dual
-	Steps   []string `json:"steps,omitempty"`   // refresh: "good" | "bad:<class>"
-	Auto4   bool     `json:"auto4,omitempty"`   // dual
-	Auto6   bool     `json:"auto6,omitempty"`
+	Macs    int      `json:"macs,omitempty"`  // refresh/dual
+	Steps   []string `json:"steps,omitempty"` // refresh: "good" | "bad:<class>"
+	// Tail (refresh): after the steps, a version installed WITHOUT a final newline and then grown in place:
+	// "continue" = the new content continues the (comment) last line and goes on with a newer version of every
+	// line (well-formed: must be served); "glued" = a record is glued straight onto the last record line
+	// (malformed as a whole: the previous mapping stays)
+	Tail  string `json:"tail,omitempty"`
+	Auto4 bool   `json:"auto4,omitempty"` // dual
+	Auto6 bool   `json:"auto6,omitempty"`
 }
 
 type fileEngine struct{}
@@ -195,6 +200,7 @@ func (fileEngine) Gen(rng *rand.Rand, tier string, i int) any {
 			}
 		}
 		c.Steps = append(c.Steps, []string{"good", "good:rename", "good:rename-keep"}[rng.Intn(3)], "good")
+		c.Tail = []string{"", "continue", "glued"}[rng.Intn(3)]
 	default:
 		c.Kind = "dual"
 		c.Macs = 2 + rng.Intn(4)
@@ -494,10 +500,10 @@ func runFileRefresh(ctx *fw.Ctx, c *fileCase) {
 		return ChainReq{Hex: v4Req(xid, refreshMac(i)), RxIf: fakeIf, Peer: "10.9.9.9", Port: 67}
 	}
 	type exp struct {
-		kind    string // "initial" | "progress" | "rearm" | "hold"
-		ver     int    // version that must be reached (progress) / held (hold)
-		prev    int
-		mac     int
+		kind string // "initial" | "progress" | "rearm" | "hold"
+		ver  int    // version that must be reached (progress) / held (hold)
+		prev int
+		mac  int
 	}
 	var exps []exp
 	xid := uint32(0)
@@ -508,7 +514,7 @@ func runFileRefresh(ctx *fw.Ctx, c *fileCase) {
 	}
 	next := 12
 	for _, st := range c.Steps {
-		if next > 24 {
+		if next > 19 {
 			break
 		}
 		if strings.HasPrefix(st, "good") {
@@ -542,10 +548,49 @@ func runFileRefresh(ctx *fw.Ctx, c *fileCase) {
 		}
 		next++
 	}
+	// a file that does not end in a newline, grown in place
+	if c.Tail != "" && next <= 20 {
+		lines := func(ver int) string {
+			var sb strings.Builder
+			for i := 0; i < c.Macs; i++ {
+				fmt.Fprintf(&sb, "%s %s\n", net.HardwareAddr(refreshMac(i)), versionAddr(v6, ver, i))
+			}
+			return sb.String()
+		}
+		var a, b string
+		if c.Tail == "continue" {
+			a = lines(next) + "# no newline at the end of this file"
+			b = a + ", which goes on here\n" + lines(next+1)
+		} else {
+			a = "# the last record has no newline\n" + strings.TrimSuffix(lines(next), "\n")
+			b = a + fmt.Sprintf("%s %s\n", net.HardwareAddr(refreshMac(0)), versionAddr(v6, next+1, 0))
+		}
+		ra := req(0, xid)
+		ra.Write = &FileWrite{Name: "leases.txt", Content: a, Rename: true}
+		ra.Poll = &PollSpec{Until: hex.EncodeToString(versionAddr(v6, next, 0)), MaxPolls: 200, IntervalMs: 50}
+		add(ra, exp{kind: "progress", ver: next, prev: cur, mac: 0})
+		cur = next
+		rb := req(0, xid)
+		rb.Write = &FileWrite{Name: "leases.txt", Content: b}
+		if c.Tail == "continue" {
+			rb.Poll = &PollSpec{Until: hex.EncodeToString(versionAddr(v6, next+1, 0)), MaxPolls: 200, IntervalMs: 50}
+			add(rb, exp{kind: "progress", ver: next + 1, prev: cur, mac: 0})
+			for i := 1; i < c.Macs; i++ {
+				r3 := req(i, xid)
+				r3.Poll = &PollSpec{Until: hex.EncodeToString(versionAddr(v6, next+1, i)), MaxPolls: 100, IntervalMs: 20}
+				add(r3, exp{kind: "progress-other", ver: next + 1, prev: cur, mac: i})
+			}
+			cur = next + 1
+		} else {
+			rb.Poll = &PollSpec{Until: hex.EncodeToString(versionAddr(v6, cur, 0)), MaxPolls: 25, IntervalMs: 10, Hold: true}
+			add(rb, exp{kind: "hold", ver: cur, prev: cur, mac: 0})
+		}
+		next += 2
+	}
 	// finally: a large well-formed version and, right behind it, a small newer one. Whatever the refresh
 	// machinery does in between, it must end on the newer one and must not go back to the large one.
 	bigSmall := -1
-	for rep := 0; rep < 2 && next <= 22; rep++ {
+	for rep := 0; rep < 2 && next <= 24; rep++ {
 		var sb strings.Builder
 		for i := 0; i < c.Macs; i++ {
 			fmt.Fprintf(&sb, "%s %s\n", net.HardwareAddr(refreshMac(i)), versionAddr(v6, next, i))
@@ -693,9 +738,9 @@ func runFileDual(ctx *fw.Ctx, c *fileCase) {
 		V4:    []PlugConf{{"file", args("leases4.txt", c.Auto4)}},
 		V6:    []PlugConf{{"file", args("leases6.txt", c.Auto6)}}}
 	type exp struct {
-		v6       bool
-		ver      int
-		mac      int
+		v6        bool
+		ver       int
+		mac       int
 		afterStep string
 	}
 	var exps []exp
